@@ -300,16 +300,29 @@ def run(ctx: Ctx) -> None:
     sizes = [0, 1, realcap - 1, realcap, realcap + 1, 2 * realcap - 1, 2 * realcap, 2 * realcap + 1, (1 << 20) + 3]
     if not q:
         sizes += [3 * realcap, 5 * realcap + 17, (1 << 22) + 1]
+        # every tiny size, and one below / at / above every further multiple of the buffer up to 8 buffers
+        sizes += list(range(2, 48)) + [k * realcap + d for k in range(3, 9) for d in (-1, 0, 1)] + [(1 << 24) + 5]
+        sizes = sorted(set(sizes))
     obs = []
     tuples = [[a] for a in ALGOS] + [list(ALGOS), list(reversed(ALGOS)), ["sha256", "sha256"],
                                      ["xxh64", "md5", "xxh64", "md5"]]
+    if not q:
+        # every ordered pair (repetition included) and seeded tuples of 3..13 algorithms with repetition
+        trng = random.Random(ctx.seed * 131 + 16)
+        tuples += [[a, b] for a in ALGOS for b in ALGOS]
+        tuples += [[trng.choice(ALGOS) for _ in range(trng.randint(3, 13))] for _ in range(150)]
     n_files = 0
     with tempfile.TemporaryDirectory(prefix="verif_c16_") as td:
         for si, size in enumerate(sizes):
             data = random.Random(ctx.seed * 77 + size).randbytes(size)
             p = Path(td) / f"f{size}.bin"
             p.write_bytes(data)
-            use = tuples if (q and si < 4) or not q else [tuples[si % len(tuples)], list(ALGOS)]
+            if q:
+                use = tuples if si < 4 else [tuples[si % len(tuples)], list(ALGOS)]
+            else:
+                # all tuples on the sizes around the first buffer boundaries, a rotating sample of 12 on the others
+                use = tuples if size in (0, 1, realcap - 1, realcap, realcap + 1, 2 * realcap + 1) else \
+                    [tuples[(si * 12 + j) % len(tuples)] for j in range(12)] + [list(ALGOS)]
             ext = {}
             for algs in use:
                 n_files += 1
